@@ -604,6 +604,38 @@ func init() {
 				poll = append(poll, Op{AtMs: 1000 * i, Op: "states"})
 			}
 			sc.Clients = append(sc.Clients, Client{Name: "tui", Ops: poll})
+			if r.P(350) {
+				// live updates of the project (through UpdateProject and by reloading its files)
+				// racing with everything else
+				up := cloneSpec(sc.Project)
+				if len(up.Procs) > 1 && r.P(500) {
+					gone := up.Procs[len(up.Procs)-1].Name
+					up.Procs = up.Procs[:len(up.Procs)-1]
+					for _, q := range up.Procs {
+						delete(q.DependsOn, gone)
+						if len(q.DependsOn) == 0 {
+							q.DependsOn = nil
+						}
+					}
+				}
+				if r.P(600) {
+					up.Procs[0].Env = append(up.Procs[0].Env, "UPD=1")
+				}
+				up.Procs = append(up.Procs, &ProcSpec{Name: "nu", Token: "nu"})
+				sc.Scripts["nu"] = &TokenScript{Launches: []simos.Script{{LifeMs: Pick(r, 500, -1), TermLagMs: Pick(r, 0, 100)}}}
+				sc.Updates = []*ProjectSpec{up, cloneSpec(sc.Project)}
+				t0 := whenMs(r, 8000)
+				sc.Clients = append(sc.Clients, Client{Name: "upd", Ops: []Op{{AtMs: t0, Op: "update", N: 0}, {AtMs: t0 + Pick(r, 0, 500, 2000), Op: Pick(r, "update", "reload"), N: 1}}})
+			}
+			if r.P(300) {
+				// one client talks REST (real router, handlers and bundled client, in-process transport)
+				sc.Rest = true
+				for oi := range sc.Clients[0].Ops {
+					if !restUnsupported[sc.Clients[0].Ops[oi].Op] {
+						sc.Clients[0].Ops[oi].Rest = true
+					}
+				}
+			}
 			return sc
 		},
 		Check: func(sc *Scenario, res *RunResult, t *Truth) []Violation { return checkC20(sc, res, t) },
